@@ -47,12 +47,12 @@ def hasDupVars : List Var → Bool
   | [] => false
   | a :: t => t.contains a || hasDupVars t
 
-def needsSort (l : Lin) : Bool := l.any (fun p => p.1 == 0) || hasDupVars (l.map (·.2))
+def termsNeedSort (l : Lin) : Bool := l.any (fun p => p.1 == 0) || hasDupVars (l.map (·.2))
 
 def mergeTerms (l : Lin) : Lin := l.foldr (fun p acc => if p.1 == 0 then acc else insertTerm p.1 p.2 acc) []
 
 def sortTerms (l : Lin) : Lin :=
-  if needsSort l then (mergeTerms l).filter (fun p => p.1 != 0) else l
+  if termsNeedSort l then (mergeTerms l).filter (fun p => p.1 != 0) else l
 
 /-- the constraint as stored: linear bodies of algebraic rows (also inside indicators) pass through `sort_terms` -/
 def Con.stored : Con → Con
